@@ -101,6 +101,7 @@ func mkVal(k types.BasicKind, t *smt.Term) value {
 }
 
 func raise(msg string) {
+	P.notePanicSite()
 	panic(rtPanic{msg})
 }
 
